@@ -1,5 +1,6 @@
 """Case streams shared by several properties (all randomness from the rng passed in)."""
 import re
+from tools.harness.common import HangDetected as _Hang
 from . import gen, corpus as corpus_mod, common
 
 _tok_cache = {}
@@ -17,7 +18,7 @@ def corpus_tokens(dialect):
         s2 = re.sub(r'[\s;]+$', '', s)
         try:
             toks = list(cls().tokenize(s2))
-        except Exception:
+        except (Exception, _Hang):
             continue
         out.append((s2, [t.type for t in toks], [s2[t.index:t.end] for t in toks]))
     _tok_cache[dialect] = out
